@@ -58,6 +58,31 @@ static Input read_input(Toks& tk, unsigned dim) {
   return in;
 }
 
+// the guard must not have a space dimension above vars.space_dimension(): build it from the non-zero terms only
+static Constraint_System read_guard(Toks& tk, unsigned dim) {
+  long k = tk.nextl(); Constraint_System cs;
+  for (long i = 0; i < k; ++i) {
+    std::string kd = tk.next(); mpz_class b = tk.nextz(); Linear_Expression e;
+    for (unsigned j = 0; j < dim; ++j) { mpz_class a = tk.nextz(); if (a != 0) e += a * Variable(j); }
+    e += b;
+    if (kd == "=") cs.insert(e == 0); else if (kd == ">=") cs.insert(e >= 0); else if (kd == ">") cs.insert(e > 0);
+    else throw std::runtime_error("case: bad guard kind " + kd);
+  }
+  return cs;
+}
+
+template <typename D> void aux_info(const std::string&, const D&, const Variables_Set&) {}
+// for grids: frequency and value closest to zero of every wrapped variable in the ARGUMENT (used only to classify failures)
+void aux_info(const std::string& id, const Grid& x, const Variables_Set& vs) {
+  std::cout << "aux " << id << " freq";
+  for (Variables_Set::const_iterator i = vs.begin(); i != vs.end(); ++i) {
+    Coefficient fn, fd, vn, vd;
+    if (x.frequency(Linear_Expression(Variable(*i)), fn, fd, vn, vd)) std::cout << " " << *i << " " << fn << " " << fd << " " << vn << " " << vd;
+    else std::cout << " " << *i << " none none none none";
+  }
+  std::cout << "\n";
+}
+
 template <typename D> void do_wrap(const std::string& id, Toks& tk, unsigned dim) {
   Input in = read_input(tk, dim);
   expect(tk, "vars"); long k = tk.nextl(); Variables_Set vs; for (long i = 0; i < k; ++i) vs.insert(Variable(tk.nextl()));
@@ -65,11 +90,12 @@ template <typename D> void do_wrap(const std::string& id, Toks& tk, unsigned dim
   expect(tk, "sg"); long sg = tk.nextl();
   expect(tk, "ov"); long ov = tk.nextl();
   expect(tk, "guard"); long hg = tk.nextl(); Constraint_System g;
-  if (hg) { expect(tk, "cons"); g = read_cons(tk, dim); }
+  if (hg) { expect(tk, "cons"); g = read_guard(tk, dim); }
   expect(tk, "thr"); unsigned thr = (unsigned) tk.nextl();
   expect(tk, "ind"); bool ind = tk.nextl() != 0;
   D x = Build<D>::make(in);
   std::ostringstream a; descr1(a, x, dim);
+  aux_info(id, x, vs);
   Bounded_Integer_Type_Width bw = w == 8 ? BITS_8 : w == 16 ? BITS_16 : w == 32 ? BITS_32 : w == 64 ? BITS_64 : BITS_128;
   Bounded_Integer_Type_Representation br = sg ? SIGNED_2_COMPLEMENT : UNSIGNED;
   Bounded_Integer_Type_Overflow bo = ov == 0 ? OVERFLOW_WRAPS : ov == 1 ? OVERFLOW_UNDEFINED : OVERFLOW_IMPOSSIBLE;
